@@ -33,7 +33,42 @@ func Rune() *rapid.Generator[rune] {
 
 // UnicodeString generates strings of up to maxLen scalar values.
 func UnicodeString(maxLen int) *rapid.Generator[string] {
-	return rapid.Map(rapid.SliceOfN(Rune(), 0, maxLen), func(rs []rune) string { return string(rs) })
+	plain := rapid.Map(rapid.SliceOfN(Rune(), 0, maxLen), func(rs []rune) string { return string(rs) })
+	if maxLen < 4 {
+		return plain
+	}
+	// one in eight strings is built around a snippet that looks like syntax to a
+	// scanner working on the text instead of the parsed value
+	hostile := rapid.Custom(func(t *rapid.T) string {
+		sn := rapid.SampledFrom(HostileSnippets).Draw(t, "snippet")
+		pre := string(rapid.SliceOfN(Rune(), 0, 2).Draw(t, "pre"))
+		post := ""
+		if rapid.Bool().Draw(t, "post?") {
+			post = string(rapid.SliceOfN(Rune(), 0, 2).Draw(t, "post"))
+		}
+		return pre + sn + post
+	})
+	return rapid.OneOf(plain, plain, plain, plain, plain, plain, plain, hostile)
+}
+
+// ProtocolTags are tags to which other NIPs attach a meaning (expiration, protected
+// events, delegation, proof of work, ...), with well-formed and malformed values. The
+// components under test implement none of these NIPs: such an event is an ordinary event.
+var ProtocolTags = []mocrelay.Tag{
+	{"expiration", "1"}, {"expiration", "100"}, {"expiration", "1700000000"}, {"expiration", "99999999999"}, {"expiration", ""}, {"expiration", "soon"},
+	{"expiration", "1893456000.5"}, {"expiration", "-1"}, {"expiration"}, {"-"}, {"nonce", "12345", "20"}, {"nonce", "x"},
+	{"delegation", "ab", "kind=1", "cd"}, {"relay", "wss://relay.example"}, {"challenge", "c"}, {"proxy", "https://x.example/1", "activitypub"},
+	{"content-warning"}, {"client", "verif"}, {"alt", "text"}, {"subject", "s"}, {"k", "1"}, {"l", "en", "ISO-639-1"}, {"published_at", "0"},
+}
+
+// HostileSnippets are text fragments that a hand-written scanner (escape handling,
+// bracket counting, member-name lookup, number detection) can mistake for JSON syntax.
+var HostileSnippets = []string{
+	"\\ud83d", "\\udd00\\file", "C:\\users\\", "ends with backslash\\", "\\", "\\\\", "\\\"", "\"", "\\n", "\\u0000", "\\u", "\\x41",
+	"[", "]", "[[[[[[[[[[", "{", "}", "{\"id\":", "],[", "\",\"", ":", ",",
+	"id", "pubkey", "created_at", "kind", "tags", "content", "sig", "ids", "authors", "kinds", "since", "until", "limit", "#e",
+	"null", "true", "false", "0", "-1", "1e3", "1700000000", "NaN",
+	"EVENT", "REQ", "CLOSE", "AUTH", "COUNT", "</script>", "%s%n", "${x}", "\u0000", "\ufeff",
 }
 
 // SimpleString: short printable ASCII (cheap, used where content is irrelevant).
@@ -234,7 +269,9 @@ func (c *StoreCfg) DrawEvent(t *rapid.T) *mocrelay.Event {
 	// generic tags
 	n := rapid.IntRange(0, 3).Draw(t, "ntags")
 	for i := 0; i < n; i++ {
-		switch rapid.IntRange(0, 9).Draw(t, "tagkind") {
+		switch rapid.IntRange(0, 10).Draw(t, "tagkind") {
+		case 10:
+			ev.Tags = append(ev.Tags, rapid.SampledFrom(ProtocolTags).Draw(t, "ptag"))
 		case 9:
 			// the same name twice with different values (multi-valued tag)
 			vs := rapid.Permutation([]string{"x", "y", "z"}).Draw(t, "tvs")
